@@ -23,6 +23,31 @@ CLAIMED = {
    technique='static analysis: two-edge CFG cut (exemption predicate false OR IsPayable true) over credit sites found by account provenance; return classification of the exemption predicate; guard cuts for metachain/self/length; field-write ownership',
    text='Every credit of a non-sender account below the three transfer entry points is cut by the union of the must-verify-false edge (called with the function\'s own minimum argument count) and the IsPayable(address of the credited account)-true edge; the exemption predicate waives only under the four stated exemptions; metachain/self/length guards cut all sender-side effects; the payable handler is written only by constructor (refusing default) and SetPayableHandler.',
    note='Trusted: go/types + go/ssa; the protocol argument layout of the three transfer functions; A-presence.'),
+ 'C11': dict(
+   level='other', design='DESIGN.md §5 C11',
+   technique='static analysis: linear entailment of index/slice bounds from CFG edge facts, validator summaries under caller assumptions and call-site preconditions; taint of decoded counts; nil-ness cuts for optional fields and absent accounts; return-shape classification',
+   text='All index/slice expressions of builtInFunctions are entailed in range; argument-decoded 64-bit counts are bounded before arithmetic, signed conversion, indexing or allocation (arithmetic-derived facts are not trusted: no circular wrap reasoning); every TokenMetaData dereference is cut by its presence test (or rests on A-protomsg, whose emitter-side obligation is checked); every account method call is cut by the presence test or A-presence; entry points return (out,nil)/(nil,err) and store only ReturnCode Ok. These are the panic sources the property names; panics inside dependencies or math/big and memory other than make sizes are not decided.',
+   note='Trusted: go/types + go/ssa; A-len, A-argbytes, A-presence, A-protomsg, A-input; one listed exception (deleteRoles: index returned by a linear search).'),
+ 'C12': dict(
+   level='other', design='DESIGN.md §5 C12',
+   technique='static analysis: index-bound entailment and count taint over package parsers (exported methods as entry points), nil-ness cut for decoded numeric fields, constant/codec agreement between builder and parsers',
+   text='Decides totality clauses of the four parsers (all index/slice sites entailed in range incl. the parity lemma for the stride-2 loop and strings.Split length facts; the transfer count bounded before it is multiplied; decoded *big.Int fields nil-checked) and the grammar agreement builder <-> parsers (same separator constant, hex codec on every appended element). The round trip as an equation over all strings is not decided.',
+   note='Trusted: go/types + go/ssa; A-len; strings.Split returns >= 1 element for a non-empty separator.'),
+ 'C16': dict(
+   level='other', design='DESIGN.md §5 C16',
+   technique='static analysis: three-way table agreement (factory argument / constructor field / SetNewGasConfig copy) against T-REG, field-read ownership, CFG cuts for all-or-nothing schedule changes, must-pass-through charge points',
+   text='For each priced protocol name the cost field is the table\'s field at all three places; only the documented per-byte prices are read (and each is); a schedule is stored and broadcast only after both tables decoded and passed the zero check, and every table field is of a kind that check inspects; every sender-side success path passes a charge that includes the own cost (structurally: cost, cost+…, cost*n, loop accumulator seeded with cost). The consumed amount as a number is not decided.',
+   note='Trusted: go/types + go/ssa; T-REG; mapstructure.Decode and reflect-based zero check behave as documented.'),
+ 'C18': dict(
+   level='proof', design='DESIGN.md §5 C18',
+   technique='static analysis: registry extraction from the factory (constant keys, constructors, constant flags) compared with T-REG and the BuiltInFunction* constant set; spine cut of Add calls; abstract evaluation of the flag writer/reader constants; field-store ownership',
+   text='Finite, purely structural obligations, all discharged: exactly the 23 protocol names are registered once each on every successful path, bound to the table\'s constructor and flags, never removed/replaced; EpochConfirmed hands exactly epoch >= activationEpoch to a writer that stores the constant the reader tests (true) / another constant (false) independent of the previous value, so the flag equals the predicate on the last confirmed epoch for every notification sequence; the activation epoch comes from the configured value; epoch-driven constructors subscribe to the notifier; exactly the table\'s epoch rows use the flag.',
+   note='Trusted: go/types + go/ssa; sync/atomic; the notifier calls back for every confirmed epoch; T-REG.'),
+ 'C20': dict(
+   level='other', design='DESIGN.md §5 C20',
+   technique='static analysis: extraction and comparison of (byte, mask, field) tables of writer and reader; index-bound entailment for the root package; rooted-write/alias analysis of the merge functions; guard/return classification of SafeSubUint64',
+   text='Decides the structural clauses behind the laws: writer and reader flag tables agree (single-bit distinct masks, same length, zero value otherwise), all index/slice sites of the root package are in range and the metachain classification implies the contract classification, the merge functions never write through or keep a mutable alias of the merged-in account, SafeSubUint64 errors exactly under a < b and returns a-b otherwise. The laws as equations over all values are not decided.',
+   note='Trusted: go/types + go/ssa; A-len.'),
  'C17': dict(
    level='proof', design='DESIGN.md §5 C17',
    technique='static analysis: error-propagation dataflow — path exploration of the SSA CFG from every fallible call under the assumption err != nil, pruned only by tests of that value; induction over call depth',
